@@ -40,6 +40,10 @@ struct Req {
     /// earlier compilations of one session / process must not influence the result
     #[serde(default)]
     warmup: Option<Vec<BTreeMap<String, String>>>,
+    /// "wasm": compile through beff_wasm's own session, file manager and module resolver (native host
+    /// of the beff_verif feature) instead of the harness's file manager over beff_core::extract
+    #[serde(default)]
+    via: Option<String>,
 }
 fn default_entry() -> String {
     "entry.ts".to_string()
@@ -52,11 +56,58 @@ fn variant_name(dbg: &str) -> String {
         .to_string()
 }
 
+struct WasmHost {
+    files: BTreeMap<String, String>,
+}
+impl beff_wasm::verif::Host for WasmHost {
+    fn resolve_import(&mut self, current_file: &str, specifier: &str) -> Option<String> {
+        resolve_in(&|p| self.files.contains_key(p), current_file, specifier)
+    }
+    fn read_file_content(&mut self, file_name: &str) -> Option<String> {
+        self.files.get(file_name).cloned()
+    }
+}
+
+fn run_wasm(req: &Req, settings: &Settings) -> Value {
+    use beff_wasm::verif;
+    verif::set_host(Box::new(WasmHost { files: req.files.clone() }));
+    // files "registered before the build" = files the host tells the session about
+    if let Some(order) = &req.order {
+        for f in order {
+            if let Some(c) = req.files.get(f) {
+                verif::update_file_content(f, c);
+            }
+        }
+    }
+    let settings_json = json!({"string_formats": settings.string_formats, "number_formats": settings.number_formats}).to_string();
+    let _ = verif::take_emitted_diagnostics();
+    match verif::bundle_to_string(&req.entry, &settings_json) {
+        Ok(code) => json!({"outcome": "code", "code": code, "via": "wasm"}),
+        Err(_) => {
+            let _ = verif::take_emitted_diagnostics();
+            let d: Value = serde_json::from_str(&verif::bundle_to_diagnostics(&req.entry, &settings_json)).unwrap_or(Value::Null);
+            let mut diags = vec![];
+            for item in d["diagnostics"].as_array().cloned().unwrap_or_default() {
+                if let Some(k) = item.get("KnownFile") {
+                    diags.push(json!({"kind": "known", "variant": "wasm", "message": k["message"], "file": k["file_name"],
+                        "line_lo": k["line_lo"], "col_lo": k["col_lo"], "line_hi": k["line_hi"], "col_hi": k["col_hi"]}));
+                } else if let Some(u) = item.get("UnknownFile") {
+                    diags.push(json!({"kind": "unknown", "variant": "wasm", "message": u["message"], "file": u["current_file"]}));
+                }
+            }
+            json!({"outcome": "diagnostics", "diagnostics": diags, "via": "wasm"})
+        }
+    }
+}
+
 fn run(req: &Req) -> Value {
     let settings = req.settings.clone().unwrap_or(Settings {
         string_formats: vec![],
         number_formats: vec![],
     });
+    if req.via.as_deref() == Some("wasm") {
+        return run_wasm(req, &settings);
+    }
     GLOBALS.set(&Globals::new(), || {
         let mut man = VFileManager::new(&req.files);
         if let Some(order) = &req.order {
